@@ -84,7 +84,8 @@ fn not_found(p: &str) -> io::Error {
 pub struct File {
     node: u32,
     ino: usize,
-    pos: u64,
+    /// file offset (shared by `File` and `&File` readers/writers, as with a real descriptor)
+    pos: std::sync::atomic::AtomicU64,
     read: bool,
     write: bool,
     append: bool,
@@ -160,7 +161,7 @@ impl OpenOptions {
                     })
                 },
             );
-            return Ok(File { node, ino, pos: 0, read: self.read, write: self.write, append: self.append, path: p });
+            return Ok(File { node, ino, pos: std::sync::atomic::AtomicU64::new(0), read: self.read, write: self.write, append: self.append, path: p });
         }
         if self.create_new {
             return Err(io::Error::new(ErrorKind::AlreadyExists, "File exists"));
@@ -173,7 +174,7 @@ impl OpenOptions {
                 || with(|k| k.nodes[node as usize].disk.inodes[ino].data.clear()),
             );
         }
-        Ok(File { node, ino, pos: 0, read: self.read, write: self.write, append: self.append, path: p })
+        Ok(File { node, ino, pos: std::sync::atomic::AtomicU64::new(0), read: self.read, write: self.write, append: self.append, path: p })
     }
 }
 
@@ -232,14 +233,20 @@ impl File {
     }
 }
 
-impl Read for File {
-    fn read(&mut self, buf: &mut [u8]) -> io::Result<usize> {
+impl File {
+    fn get_pos(&self) -> u64 {
+        self.pos.load(std::sync::atomic::Ordering::Relaxed)
+    }
+    fn set_pos(&self, p: u64) {
+        self.pos.store(p, std::sync::atomic::Ordering::Relaxed)
+    }
+    fn do_read(&self, buf: &mut [u8]) -> io::Result<usize> {
         if !self.read {
             return Err(io::Error::new(ErrorKind::Other, "Bad file descriptor (not open for reading)"));
         }
+        let pos = self.get_pos() as usize;
         let n = with(|k| {
             let data = &k.nodes[self.node as usize].disk.inodes[self.ino].data;
-            let pos = self.pos as usize;
             if pos >= data.len() {
                 return 0;
             }
@@ -247,13 +254,36 @@ impl Read for File {
             buf[..n].copy_from_slice(&data[pos..pos + n]);
             n
         });
-        self.pos += n as u64;
+        self.set_pos((pos + n) as u64);
         Ok(n)
+    }
+    fn do_seek(&self, pos: SeekFrom) -> io::Result<u64> {
+        let new = match pos {
+            SeekFrom::Start(o) => o as i64,
+            SeekFrom::End(o) => self.len() as i64 + o,
+            SeekFrom::Current(o) => self.get_pos() as i64 + o,
+        };
+        if new < 0 {
+            return Err(io::Error::new(ErrorKind::InvalidInput, "invalid seek to a negative position"));
+        }
+        self.set_pos(new as u64);
+        Ok(new as u64)
     }
 }
 
-impl Write for File {
-    fn write(&mut self, buf: &[u8]) -> io::Result<usize> {
+impl Read for File {
+    fn read(&mut self, buf: &mut [u8]) -> io::Result<usize> {
+        self.do_read(buf)
+    }
+}
+impl Read for &File {
+    fn read(&mut self, buf: &mut [u8]) -> io::Result<usize> {
+        self.do_read(buf)
+    }
+}
+
+impl File {
+    fn do_write(&self, buf: &[u8]) -> io::Result<usize> {
         if !(self.write || self.append) {
             return Err(io::Error::new(ErrorKind::Other, "Bad file descriptor (not open for writing)"));
         }
@@ -263,10 +293,24 @@ impl Write for File {
         if kernel::tearing_down() {
             return Ok(buf.len());
         }
-        let off = if self.append { self.len() } else { self.pos };
+        let off = if self.append { self.len() } else { self.get_pos() };
         let n = self.do_write_at(buf, off);
-        self.pos = off + n as u64;
+        self.set_pos(off + n as u64);
         Ok(n)
+    }
+}
+
+impl Write for File {
+    fn write(&mut self, buf: &[u8]) -> io::Result<usize> {
+        self.do_write(buf)
+    }
+    fn flush(&mut self) -> io::Result<()> {
+        Ok(())
+    }
+}
+impl Write for &File {
+    fn write(&mut self, buf: &[u8]) -> io::Result<usize> {
+        self.do_write(buf)
     }
     fn flush(&mut self) -> io::Result<()> {
         Ok(())
@@ -275,16 +319,12 @@ impl Write for File {
 
 impl Seek for File {
     fn seek(&mut self, pos: SeekFrom) -> io::Result<u64> {
-        let new = match pos {
-            SeekFrom::Start(o) => o as i64,
-            SeekFrom::End(o) => self.len() as i64 + o,
-            SeekFrom::Current(o) => self.pos as i64 + o,
-        };
-        if new < 0 {
-            return Err(io::Error::new(ErrorKind::InvalidInput, "invalid seek to a negative position"));
-        }
-        self.pos = new as u64;
-        Ok(self.pos)
+        self.do_seek(pos)
+    }
+}
+impl Seek for &File {
+    fn seek(&mut self, pos: SeekFrom) -> io::Result<u64> {
+        self.do_seek(pos)
     }
 }
 
